@@ -386,7 +386,7 @@ out:
 /* one-shot chains: 2..6 FULL_FLUSH calls then a final NO_FLUSH call, concatenated */
 static void run_chain(long idx, ccase *c, vrng *r, const char *lvl)
 {
-	size_t n = c->n; int parts = 2 + vrn(r, 5); size_t cut[8]; cut[0] = 0; for (int i = 1; i < parts; i++) cut[i] = vrn(r, (uint32_t) n + 1); cut[parts] = n;
+	size_t n = c->n; int parts = vrn(r, 4) ? 2 + vrn(r, 5) : 1 + vrn(r, 2), last_full = vrn(r, 3) == 0; size_t cut[8]; cut[0] = 0; for (int i = 1; i < parts; i++) cut[i] = vrn(r, (uint32_t) n + 1); cut[parts] = n;
 	for (int i = 1; i < parts; i++) for (int j = i + 1; j < parts; j++) if (cut[j] < cut[i]) { size_t t = cut[i]; cut[i] = cut[j]; cut[j] = t; }
 	size_t total = 0; nev = 0;
 	struct isal_zstream *s = (struct isal_zstream *) gs_place(s_ctx, sizeof *s, G_START, 0);
@@ -398,7 +398,7 @@ static void run_chain(long idx, ccase *c, vrng *r, const char *lvl)
 		uint8_t *in = gs_place(s_in, len, G_END, 0); memcpy(in, inbuf + cut[p], len); uint8_t *out = gs_place(s_out, aout, G_END, 0);
 		if (V_TRY(60)) {
 			isal_deflate_stateless_init(s); if (setup_stream(s, c, r, ht, lvlbuf, lvlsz)) { V_END; goto out; }
-			s->flush = lastp ? NO_FLUSH : FULL_FLUSH; s->end_of_stream = lastp; s->next_in = in; s->avail_in = (uint32_t) len; s->next_out = out; s->avail_out = (uint32_t) aout;
+			s->flush = lastp && !last_full ? NO_FLUSH : FULL_FLUSH; s->end_of_stream = lastp;   /* the last piece may ask for FULL_FLUSH as well: end_of_stream still terminates the stream */ s->next_in = in; s->avail_in = (uint32_t) len; s->next_out = out; s->avail_out = (uint32_t) aout;
 			ret = isal_deflate_stateless(s); V_END;
 		} else { fault_key("isal_deflate_stateless(chain)"); goto out; }
 		st_calls++;
@@ -587,10 +587,25 @@ int main(int argc, char **argv)
 				for (size_t a = 0; a <= b + 8 && v_nviol <= v_viol_cap; a++) { c.os_avail_out = a + 1; describe(idx, &c, lname); vrng r2; vr_seed(&r2, vopt.seed, 51, idx * 4096 + a); run_oneshot(idx, &c, &r2, lname); }
 				v_count("oneshot", "systematic_avail_out_sweeps", 1); continue;
 			}
+			if ((!strcmp(prop, "C10") || !strcmp(prop, "C11") || !strcmp(prop, "C14")) && q % 40 == 23) {   /* incompressible inputs whose length sits at a multiple of 65535 / 65536 (stored-block count changes), output space swept across the exact stored size */
+				static const uint32_t sz[] = { 65535, 65536, 131070, 131071, 131072, 196605, 196606, 196607, 262140, 262141, 262142, 262143 };
+				base_case(&c, &r); c.oneshot = 1; c.infam = 3; c.n = sz[vrn(&r, 12)]; vr_fill(&r, inbuf, c.n); c.hist_bits = 0; c.chunked_mem = 0; c.os_eos = 1; c.os_flush = vrn(&r, 3) ? NO_FLUSH : FULL_FLUSH; if (c.os_flush == FULL_FLUSH && vrn(&r, 2)) { c.os_eos = 0; c.wrapper = IGZIP_DEFLATE; }
+				if (!strcmp(prop, "C11") && c.wrapper == IGZIP_DEFLATE) c.wrapper = 1 + vrn(&r, 4);
+				size_t b = onebound(c.n, c.wrapper);
+				for (size_t a = b - 12; a <= b + 3 && v_nviol <= v_viol_cap; a++) { c.os_avail_out = a + 1; describe(idx, &c, lname); vrng r2; vr_seed(&r2, vopt.seed, 52, idx * 64 + (a - (b - 12))); run_oneshot(idx, &c, &r2, lname); }
+				v_count("oneshot", "stored_size_boundary_sweeps", 1); continue;
+			}
+			if ((!strcmp(prop, "C10") || !strcmp(prop, "C05")) && q % 40 == 33) {   /* a 4 KiB constant run first (one-shot shortcut, then a bit-unaligned block header), other data behind it: every avail_out */
+				base_case(&c, &r); c.oneshot = 1; c.infam = 2; size_t run = 4096 + vrn(&r, 9), m = 20 + vrn(&r, 80); memset(inbuf, vrn(&r, 2) ? 0 : 0xff, run); for (size_t i = 0; i < m; i++) inbuf[run + i] = (uint8_t) (vrn(&r, 2) ? "lorem ipsum\n"[vrn(&r, 12)] : vr32(&r)); c.n = run + m;
+				c.hist_bits = 0; c.chunked_mem = 0; c.os_eos = 1; c.os_flush = vrn(&r, 4) ? NO_FLUSH : FULL_FLUSH; c.level = vrn(&r, 3) ? 0 : (int) vrn(&r, 4);
+				size_t b = onebound(c.n, c.wrapper);
+				for (size_t a = 0; a <= 700 && a <= b + 8 && v_nviol <= v_viol_cap; a++) { c.os_avail_out = a + 1; describe(idx, &c, lname); vrng r2; vr_seed(&r2, vopt.seed, 53, idx * 4096 + a); run_oneshot(idx, &c, &r2, lname); }
+				v_count("oneshot", "constant_run_first_avail_out_sweeps", 1); continue;
+			}
 			if (!strcmp(prop, "C17") && q % 12 == 11) { run_dict_extras(idx, &r); continue; }
 			gen_case(idx, &r, &c, prop); describe(idx, &c, lname);
 			if (!strcmp(prop, "C14") && q % 7 == 6) {   /* one-shot chains: also constant-byte and tiny inputs (dedicated stateless paths) */
-				int f = vrn(&r, 4); if (f < 3) { c.infam = f == 0 ? 2 : f == 1 ? 1 : 3; c.n = gen_input(&r, inbuf, c.infam, 60000, c.hist_bits); if (c.infam == 2 && vrn(&r, 2)) memset(inbuf, vrn(&r, 2) ? 0 : 0xff, c.n); describe(idx, &c, lname); }
+				int f = vrn(&r, 4); if (f < 3) { c.infam = f == 0 ? 2 : f == 1 ? 1 : 3; c.n = gen_input(&r, inbuf, c.infam, c.infam == 3 ? 200000 : 60000, c.hist_bits); if (c.infam == 3 && vrn(&r, 2)) { c.n = 60000 + vrn(&r, 140000); vr_fill(&r, inbuf, c.n); } if (c.infam == 2 && vrn(&r, 2)) memset(inbuf, vrn(&r, 2) ? 0 : 0xff, c.n); describe(idx, &c, lname); }
 				run_chain(idx, &c, &r, lname); continue; }
 			if (c.oneshot) run_oneshot(idx, &c, &r, lname); else run_streaming(idx, &c, &r, lname);
 			if (v_nviol > v_viol_cap) break;
